@@ -70,6 +70,18 @@ func stringToBytes(s string) []byte {
 	return unsafe.Slice(unsafe.StringData(s), len(s)) //nolint:gosec
 }
 
+// nextPosAfterEmptyMatch returns the position at which the search must resume
+// after an empty match at pos. Like stdlib regexp, it steps over one whole
+// UTF-8 code point (an invalid byte counts as width 1), never into the middle
+// of a multi-byte rune.
+func nextPosAfterEmptyMatch(b []byte, pos int) int {
+	if pos < len(b) && b[pos] >= utf8.RuneSelf {
+		_, width := utf8.DecodeRune(b[pos:])
+		return pos + width
+	}
+	return pos + 1
+}
+
 // Regex represents a compiled regular expression.
 //
 // A Regex is safe to use concurrently from multiple goroutines, except for
@@ -818,7 +830,7 @@ func (r *Regex) ReplaceAllLiteral(src, repl []byte) []byte {
 		// This matches Go stdlib behavior (see FindAllIndex for details).
 		//nolint:gocritic // badCond: intentional - checking empty match at lastMatchEnd
 		if start == end && start == lastMatchEnd {
-			pos++
+			pos = nextPosAfterEmptyMatch(src, pos)
 			if pos > len(src) {
 				break
 			}
@@ -841,7 +853,7 @@ func (r *Regex) ReplaceAllLiteral(src, repl []byte) []byte {
 
 		switch {
 		case start == end:
-			pos = end + 1
+			pos = nextPosAfterEmptyMatch(src, end)
 		case end > pos:
 			pos = end
 		default:
@@ -889,7 +901,7 @@ func (r *Regex) ReplaceAllLiteralString(src, repl string) string {
 
 		//nolint:gocritic // badCond: intentional - checking empty match at lastMatchEnd
 		if start == end && start == lastMatchEnd {
-			pos++
+			pos = nextPosAfterEmptyMatch(b, pos)
 			if pos > len(src) {
 				break
 			}
@@ -911,7 +923,7 @@ func (r *Regex) ReplaceAllLiteralString(src, repl string) string {
 
 		switch {
 		case start == end:
-			pos = end + 1
+			pos = nextPosAfterEmptyMatch(b, end)
 		case end > pos:
 			pos = end
 		default:
@@ -1124,7 +1136,7 @@ func (r *Regex) ReplaceAll(src, repl []byte) []byte {
 		// This matches Go's stdlib behavior for preventing duplicate empty matches.
 		//nolint:gocritic // badCond: intentional - checking empty match at lastNonEmptyMatchEnd
 		if absStart == absEnd && absStart == lastNonEmptyMatchEnd {
-			pos++
+			pos = nextPosAfterEmptyMatch(src, pos)
 			if pos > len(src) {
 				break
 			}
@@ -1148,7 +1160,7 @@ func (r *Regex) ReplaceAll(src, repl []byte) []byte {
 		switch {
 		case absStart == absEnd:
 			// Empty match: advance by 1 to avoid infinite loop
-			pos = absEnd + 1
+			pos = nextPosAfterEmptyMatch(src, absEnd)
 		case absEnd > pos:
 			pos = absEnd
 		default:
@@ -1208,7 +1220,7 @@ func (r *Regex) ReplaceAllFunc(src []byte, repl func([]byte) []byte) []byte {
 
 		//nolint:gocritic // badCond: intentional - checking empty match at lastMatchEnd
 		if start == end && start == lastMatchEnd {
-			pos++
+			pos = nextPosAfterEmptyMatch(src, pos)
 			if pos > len(src) {
 				break
 			}
@@ -1230,7 +1242,7 @@ func (r *Regex) ReplaceAllFunc(src []byte, repl func([]byte) []byte) []byte {
 
 		switch {
 		case start == end:
-			pos = end + 1
+			pos = nextPosAfterEmptyMatch(src, end)
 		case end > pos:
 			pos = end
 		default:
@@ -1282,7 +1294,7 @@ func (r *Regex) ReplaceAllStringFunc(src string, repl func(string) string) strin
 
 		//nolint:gocritic // badCond: intentional - checking empty match at lastMatchEnd
 		if start == end && start == lastMatchEnd {
-			pos++
+			pos = nextPosAfterEmptyMatch(b, pos)
 			if pos > len(src) {
 				break
 			}
@@ -1304,7 +1316,7 @@ func (r *Regex) ReplaceAllStringFunc(src string, repl func(string) string) strin
 
 		switch {
 		case start == end:
-			pos = end + 1
+			pos = nextPosAfterEmptyMatch(b, end)
 		case end > pos:
 			pos = end
 		default:
@@ -1534,7 +1546,7 @@ func (r *Regex) FindAllStringSubmatchIndex(s string, n int) [][]int {
 //
 // Empty match handling follows Go stdlib regexp semantics: an empty match at a
 // position where a non-empty match just ended is skipped, and the search
-// advances by one byte after each empty match.
+// advances by one code point after each empty match.
 //
 // Example:
 //
@@ -1559,7 +1571,7 @@ func (r *Regex) AllIndex(b []byte) iter.Seq[[2]int] {
 			// This matches Go stdlib behavior.
 			//nolint:gocritic // badCond: intentional - checking empty match at lastMatchEnd
 			if start == end && start == lastMatchEnd {
-				pos++
+				pos = nextPosAfterEmptyMatch(b, pos)
 				if pos > len(b) {
 					return
 				}
@@ -1572,7 +1584,7 @@ func (r *Regex) AllIndex(b []byte) iter.Seq[[2]int] {
 				lastMatchEnd = end
 			}
 			if end == pos {
-				pos++
+				pos = nextPosAfterEmptyMatch(b, pos)
 			} else {
 				pos = end
 			}
